@@ -136,6 +136,7 @@ pub(crate) fn restore_repository<S: IndexedTree>(
         dest,
         &file_infos.names,
         file_infos.file_lengths,
+        &file_infos.file_truncate,
         file_infos.r,
         file_infos.restore_size,
         opts.sparse.unwrap_or_default(),
@@ -543,12 +544,13 @@ impl PackInfo {
 ///
 /// * If the length of a file could not be set.
 /// * If the restore failed.
-#[allow(clippy::too_many_lines)]
+#[allow(clippy::too_many_lines, clippy::too_many_arguments)]
 fn restore_contents<S: Open>(
     repo: &Repository<S>,
     dest: &LocalDestination,
     filenames: &Filenames,
     file_lengths: Vec<u64>,
+    file_truncate: &[bool],
     restore_info: RestoreInfo,
     restore_size: u64,
     sparse: SparseRestore,
@@ -668,15 +670,23 @@ fn restore_contents<S: Open>(
                             let data = data.clone();
                             s1.spawn(move |_| {
                                 let path = &filenames[file_idx];
+                                let truncate = file_truncate[file_idx];
                                 // Allocate file if it is not yet allocated
                                 let mut sizes_guard = sizes.lock().unwrap();
                                 let filesize = sizes_guard[file_idx];
                                 if filesize > 0 {
+                                    if truncate {
+                                        // no contents of an existing file are reused: discard them, so that
+                                        // everything which is not written reads as zero
+                                        dest.set_length(path, 0).unwrap();
+                                    }
                                     dest.set_length(path, filesize).unwrap();
                                     sizes_guard[file_idx] = 0;
                                 }
                                 drop(sizes_guard);
-                                if !is_sparse {
+                                // Zeros can only be skipped in a file which has been truncated before; an
+                                // existing file which is reused may contain other data at this position.
+                                if !(is_sparse && truncate) {
                                     dest.write_at(path, start, &data).unwrap();
                                 }
                                 p.inc(size);
@@ -706,6 +716,8 @@ pub struct RestorePlan {
     names: Filenames,
     /// The length of the files to restore
     file_lengths: Vec<u64>,
+    /// Whether the files are truncated before restoring, i.e. no contents of an existing file are reused
+    file_truncate: Vec<bool>,
     /// The restore information
     r: RestoreInfo,
     /// candidates for hardlinks
@@ -845,6 +857,7 @@ impl RestorePlan {
         }
 
         self.file_lengths.push(file_pos);
+        self.file_truncate.push(open_file.is_none());
 
         if !has_unmatched && open_file.is_some() {
             Ok(AddFileResult::Verified)
